@@ -20,7 +20,9 @@ Per generated module set (check/props/schema_gen.py, plus the feature schemas be
           processing again: every lookup must return what it returned without the late load (positions recovered by
           pointer identity of the tree roots collected before) and the trees must be unchanged.
   revisions (implementation only; the core model has no revisions) text-level family: module lib loaded in 2-3
-          revisions with partly different children, users importing it with revision-date, without, and under two
+          revisions with partly different children -- every revision with shorthand choice members (also in an rpc
+          input) and augments of its own tree, so that EVERY loaded revision must have gone through Augment and
+          FixChoice --, users importing it with revision-date, without, and under two
           prefixes at once, many load orders; absolute paths through those import prefixes from the users' nodes
           (harness/go/c17.go `findrev`): a pinned import denotes exactly that revision's entry tree (identified by
           pointer), an unpinned one the latest revision's; a path that exists only in another revision finds nothing.
@@ -511,16 +513,34 @@ REVS = ["2018-05-05", "2019-01-01", "2020-01-01"]
 
 
 def lib_paths(i):
+    """every node of the PROCESSED tree of revision i: shorthand choice members sit in implicit cases (also in the rpc
+    input), the revision's own augments are grafted"""
     return [("top",), ("top", "shared"), ("top", "only-%d" % i), ("top", "c-%d" % i), ("top", "c-%d" % i, "x"),
-            ("t-%d" % i,), ("common",)]
+            ("t-%d" % i,), ("common",),
+            ("top", "ch"), ("top", "ch", "x"), ("top", "ch", "x", "x"),
+            ("top", "ch", "sc-%d" % i), ("top", "ch", "sc-%d" % i, "sc-%d" % i), ("top", "ch", "sc-%d" % i, "sc-%d" % i, "y"),
+            ("top", "ch", "cs"), ("top", "ch", "cs", "in-cs"),
+            ("op",), ("op", "input"), ("op", "input", "ich"), ("op", "input", "ich", "ix-%d" % i),
+            ("op", "input", "ich", "ix-%d" % i, "ix-%d" % i),
+            ("top", "aug-%d" % i), ("top", "augc"), ("top", "augc", "al-%d" % i),
+            ("top", "ch", "ag-%d" % i), ("top", "ch", "ag-%d" % i, "ag-%d" % i),
+            ("top", "c-%d" % i, "late"), ("op", "input", "ai-%d" % i)]
 
 
 def lib_text(i, history):
     revs = "".join("  revision %s;\n" % r for r in history)
     return ("module lib {\n  namespace \"urn:lib\";\n  prefix l;\n%s"
             "  container top {\n    leaf shared { type string; }\n    leaf only-%d { type string; }\n"
-            "    container c-%d { leaf x { type string; } }\n  }\n  leaf t-%d { type string; }\n  leaf common { type string; }\n}\n"
-            % (revs, i, i, i))
+            "    container c-%d { leaf x { type string; } }\n"
+            "    choice ch {\n      leaf x { type string; }\n      container sc-%d { leaf y { type string; } }\n"
+            "      case cs { leaf in-cs { type string; } }\n    }\n  }\n"
+            "  leaf t-%d { type string; }\n  leaf common { type string; }\n"
+            "  rpc op { input { choice ich { leaf ix-%d { type string; } } } }\n"
+            "  augment \"/l:top\" { leaf aug-%d { type string; } container augc { leaf al-%d { type string; } } }\n"
+            "  augment \"/l:top/l:ch\" { leaf ag-%d { type string; } }\n"
+            "  augment \"/l:top/l:c-%d\" { leaf late { type string; } }\n"
+            "  augment \"/l:op/l:input\" { leaf ai-%d { type string; } }\n}\n"
+            % (revs, i, i, i, i, i, i, i, i, i, i))
 
 
 def user_text(k, imports):
